@@ -818,6 +818,9 @@ func genSchemaCases(ctx *hx.Ctx, emit func(hx.Case), withDfl bool, stride int) {
 	n := 6000
 	if ctx.Thorough() {
 		n = 150000
+		if withDfl { // C12 observes seven paths per case and the DefaultsSet variants: a shorter stream keeps it inside the budget
+			n = 80000
+		}
 	}
 	for i := 0; i < n; i++ {
 		s := randSchema(ctx.Rng, 1+ctx.Rng.Intn(3))
